@@ -31,13 +31,16 @@ def main():
             except Exception:
                 name = str(sig)
             root = os.path.dirname(os.path.dirname(os.path.abspath(__file__)))
-            os.makedirs(os.path.join(root, 'replays', pid), exist_ok=True)
-            rp = os.path.join(root, 'replays', pid, f'crash-{name}.json')
+            rpd = os.environ.get('VERIF_REPLAY_DIR') or os.path.join(root, 'replays')
+            evd = os.environ.get('VERIF_EVIDENCE_DIR') or os.path.join(root, 'evidence')
+            os.makedirs(os.path.join(rpd, pid), exist_ok=True)
+            os.makedirs(evd, exist_ok=True)
+            rp = os.path.join(rpd, pid, f'crash-{name}.json')
             json.dump(dict(property=pid, key=f'crash-{name}', what=f'the interpreter was killed by {name} while the check was executing the library on valid inputs',
                            payload=dict(tier=a.tier, seed=seed)), open(rp, 'w'), indent=1)
             json.dump(dict(property_id=pid, tier=a.tier, seed=seed, level='other',
                            coverage=dict(explanation=f'worker process killed by {name}: no coverage recorded', evaluations=1, distinct_nontrivial=0, samples=[f'crash-{name}']),
-                           assumptions=[], wall_s=round(time.time() - t0, 2), violations=1), open(os.path.join(root, 'evidence', f'{pid}.json'), 'w'), indent=1)
+                           assumptions=[], wall_s=round(time.time() - t0, 2), violations=1), open(os.path.join(evd, f'{pid}.json'), 'w'), indent=1)
             print(f'DETAIL property={pid} key=crash-{name} :: interpreter killed by {name} while executing the library (memory corruption by a compiled kernel)')
             print(f'VIOLATION property={pid} replay={rp}')
             sys.exit(1)
